@@ -119,7 +119,7 @@ def xvg_part(ctx: Ctx, rng, thorough):
         recs.append(rec)
         ctx.count(1, nontrivial_key=("xvg", nh, na, tuple(pos), nrows) if nrows else None)
     # the shipped GROMACS example
-    ex = "/repo/molgri/examples/H2O_H2O_o_ico_500_b_ico_5_t_3830884671.xvg"
+    ex = os.environ.get("VERIF_REPO", "/repo") + "/molgri/examples/H2O_H2O_o_ico_500_b_ico_5_t_3830884671.xvg"
     if os.path.exists(ex) and os.path.getsize(ex) > 0:
         lines = []
         for ln in open(ex).read().splitlines()[:60]:
